@@ -145,6 +145,37 @@ pub fn roundtrip(ctx: &Ctx, case: u64, r: &mut Rng, cfg: &GenCfg, model: &ModelT
             }
         },
     }
+    // second restore over the first one after damaging part of a restored multi-chunk file (same size, other
+    // mtime): blobs still matching are taken from the file, the others from the repository
+    if out.problems.is_empty() {
+        let victim = model.files().filter(|(_, b)| b.len() >= 2).max_by_key(|(_, b)| b.len()).map(|(k, b)| (k.clone(), b.clone()));
+        if let Some((k, bytes)) = victim {
+            let p = dest.join(crate::model::pk_to_path(&k));
+            let mut v = bytes.as_ref().clone();
+            let a = r.usize_below(v.len());
+            let n = 1 + r.usize_below((v.len() - a).min(cfg.avg.max(1)));
+            for x in &mut v[a..a + n] {
+                *x ^= 0x5a;
+            }
+            use std::os::unix::fs::PermissionsExt;
+            let _ = std::fs::set_permissions(&p, std::fs::Permissions::from_mode(0o600));
+            if std::fs::write(&p, &v).is_ok() {
+                let ft = filetime::FileTime::from_unix_time(1_111_111_111, 0);
+                let _ = filetime::set_file_times(&p, ft, ft);
+                match restore_to(&repo, &snap, &dest, &ropts) {
+                    Err(e) => out.problems.push(("re-restore-error".into(), format!("second restore over a partly damaged first restore failed: {e}"))),
+                    Ok(()) => {
+                        if let Ok(obs) = observe_disk(&dest) {
+                            for x in diff_model(model, &obs, CmpOpts::ALL).iter().take(3) {
+                                let kind = x.split(' ').next().unwrap_or("?");
+                                out.problems.push((format!("re-restore:{kind}"), format!("after restoring again over a partly damaged copy (bytes {a}..{} of {} changed): {x}", a + n, crate::model::pk_display(&k))));
+                            }
+                        }
+                    }
+                }
+            }
+        }
+    }
     let _ = std::fs::remove_dir_all(&rdir);
     tick("restore done");
     // check
